@@ -168,7 +168,15 @@ func (p *Parser) ParseFile(filename string, varPool *VarPool) (*MetaData, []*Bui
 		}
 	}
 
-	for _, f := range pkg.Syntax {
+	// The file being processed names its imports first: its expressions are the ones copied into the
+	// output, and the name it gives a package cannot clash with the locals of those expressions.
+	importFiles := make([]*ast.File, 0, len(pkg.Syntax)+1)
+	if targetFile != nil {
+		importFiles = append(importFiles, targetFile)
+	}
+	importFiles = append(importFiles, pkg.Syntax...)
+
+	for _, f := range importFiles {
 		if f == nil || isKessokuGenerated(f) {
 			continue
 		}
